@@ -468,6 +468,24 @@ func DialHTTP(network, address string) (*rpc.Client, error) {
 `},
 }
 
+// extra generated files that only add exported accessors (no existing line changes)
+var extraFiles = map[string]string{
+	"httpapi/zz_sim_seam.go": `package httpapi
+
+import (
+	"net/http"
+
+	"github.com/semafind/semadb/cluster"
+)
+
+// generated by simgo: gives the harness the real handler chain (requests enter
+// through ServeHTTP; no listener is started).
+func SetupRouterForSim(cnode *cluster.ClusterNode, cfg HttpApiConfig) http.Handler {
+	return setupRouter(cnode, cfg, nil)
+}
+`,
+}
+
 func copyDir(src, dst string) {
 	os.MkdirAll(dst, 0755)
 	ents, err := os.ReadDir(src)
@@ -557,6 +575,11 @@ func main() {
 			os.Exit(2)
 		}
 		if err := os.WriteFile(filepath.Join(root, gen[0], "zz_sim_seam.go"), []byte(gen[1]), 0644); err != nil {
+			panic(err)
+		}
+	}
+	for rel, src := range extraFiles {
+		if err := os.WriteFile(filepath.Join(root, rel), []byte(src), 0644); err != nil {
 			panic(err)
 		}
 	}
